@@ -309,6 +309,8 @@ func unmarshalObject(buf []byte, atys map[string]cty.Type, path cty.Path) (cty.V
 			if err != nil {
 				return cty.NilVal, path.NewErrorf("failed to read object key: %s", err)
 			}
+			// Attribute names in the type are normalized, so the key must be too.
+			k = cty.NormalizeString(k)
 
 			aty, ok := atys[k]
 			if !ok {
